@@ -93,11 +93,11 @@ def run_case(case):
 			try:
 				lf = os.path.join(tmp, 'l.txt')
 				open(lf, 'w').write(''.join(os.path.basename(p) + '\n' for p in paths))
-				cli.main(['tree', '--no-progress', '-k', '6', '-p', 'AT', '-l', lf, '--ldir', gdir], standalone_mode=False)
+				cli.main(['tree', '--no-progress', '-k', '6', '-p', 'AT', '-l', lf, '--ldir', gdir] + (['-c', str(case['cores'])] if case.get('cores') else []), standalone_mode=False)
 			finally:
 				shutil.rmtree(tmp, ignore_errors=True)
 		else:
-			cli.main(['tree', '--no-progress', '-k', '6', '-p', 'AT'] + paths, standalone_mode=False)
+			cli.main(['tree', '--no-progress', '-k', '6', '-p', 'AT'] + (['-c', str(case['cores'])] if case.get('cores') else []) + paths, standalone_mode=False)
 	except SystemExit:
 		pass
 	finally:
@@ -117,6 +117,9 @@ def bounded(tier, seed):
 		cases.append({'kind': 'library', 'seed': rnd.randrange(10 ** 6), 'n': rnd.choice([2, 3, 4, 5, 8, 13]), 'ties': rnd.random() < .5, 'identical': rnd.random() < .3})
 	for _ in range(6 if tier == 'quick' else 40):
 		cases.append({'kind': rnd.choice(['cli', 'cli_sigs', 'cli_list']), 'seed': rnd.randrange(10 ** 6), 'n': rnd.choice([2, 3, 5, 9])})
+	# many more genomes than worker processes (work is then split into batches / chunks per worker)
+	for kind, n, cores in (('cli', 9, 1), ('cli_list', 11, 2), ('cli', 6, 1)):
+		cases.append({'kind': kind, 'seed': rnd.randrange(10 ** 6), 'n': n, 'cores': cores})
 	n, failures, sample = 0, [], []
 	for c in cases:
 		r = run_case(c)
